@@ -615,7 +615,34 @@ func (r *rewriter) rewriteSelect(sel *ast.SelectStmt, site string) ast.Stmt {
 		}
 		cc.Body[0] = &ast.ExprStmt{X: call(&ast.SelectorExpr{X: ast.NewIdent(tok), Sel: ast.NewIdent("Done")})}
 	}
-	blk := &ast.BlockStmt{List: append(pre, sel)}
+	var core ast.Stmt = sel
+	if hasDefault && len(chans) > 0 {
+		// A chosen non-default case may be one half of an unbuffered rendezvous
+		// whose partner has not reached its real operation yet; the real select
+		// must then not fall into default.  Retry until the chosen case fires:
+		//   L: select { ...; default: if tok.I >= 0 && tok.I != nDefault { Gosched(); goto L }; <default body> }
+		label := r.tmp("retry")
+		for _, cl := range sel.Body.List {
+			cc := cl.(*ast.CommClause)
+			if cc.Comm != nil {
+				continue
+			}
+			guard := &ast.IfStmt{
+				Cond: &ast.BinaryExpr{
+					X:  &ast.BinaryExpr{X: &ast.SelectorExpr{X: ast.NewIdent(tok), Sel: ast.NewIdent("I")}, Op: token.GEQ, Y: &ast.BasicLit{Kind: token.INT, Value: "0"}},
+					Op: token.LAND,
+					Y:  &ast.BinaryExpr{X: &ast.SelectorExpr{X: ast.NewIdent(tok), Sel: ast.NewIdent("I")}, Op: token.NEQ, Y: &ast.BasicLit{Kind: token.INT, Value: strconv.Itoa(len(chans))}},
+				},
+				Body: &ast.BlockStmt{List: []ast.Stmt{
+					&ast.ExprStmt{X: call(ds("Spin"))},
+					&ast.BranchStmt{Tok: token.GOTO, Label: ast.NewIdent(label)},
+				}},
+			}
+			cc.Body = append([]ast.Stmt{guard}, cc.Body...)
+		}
+		core = &ast.LabeledStmt{Label: ast.NewIdent(label), Stmt: sel}
+	}
+	blk := &ast.BlockStmt{List: append(pre, core)}
 	r.core[blk] = len(pre)
 	return blk
 }
